@@ -119,14 +119,42 @@ impl<'a> Use for Enc<'a> {
     }
 }
 
+/// Encoding a value through its own Encode impl (the impls that write in several steps, loops included) into a sink.
+pub struct EncVal<'a, T: minicbor::Encode<()>> { pub v: &'a T, pub ok: bool, pub write_err: bool }
+impl<'a, T: minicbor::Encode<()>> Use for EncVal<'a, T> {
+    fn run<W: Write>(&mut self, w: &mut W) {
+        match minicbor::encode(self.v, w) {
+            Ok(()) => { self.ok = true }
+            Err(err) => { self.ok = false; self.write_err = err.is_write() }
+        }
+    }
+}
+pub fn encode_value_event<T: minicbor::Encode<()>>(kind: &str, cap: usize, v: &T, reference: &[u8]) -> Option<Value> {
+    let mut u = EncVal { v, ok: false, write_err: false };
+    event_of(kind, cap, reference, &mut u, |u| (u.ok, u.write_err))
+}
+
 pub fn encode_event(kind: &str, cap: usize, toks: &[minicbor::data::Token<'_>], reference: &[u8]) -> Option<Value> {
     let mut u = Enc { toks, ok: false, write_err: false };
-    let r = std::panic::catch_unwind(std::panic::AssertUnwindSafe(|| with_sink(kind, cap, &mut u)));
-    match r {
-        Ok(Some(a)) => Some(json!({"kind": kind, "cap": cap, "ref": bytes(reference), "ok": u.ok, "write_err": u.write_err, "panic": false,
-                                   "position": a.position, "content": bytes(&a.content), "canary": a.canary, "untouched": a.untouched})),
-        Ok(None) => None,
-        Err(_) => Some(json!({"kind": kind, "cap": cap, "ref": bytes(reference), "ok": false, "write_err": false, "panic": true,
-                              "position": 0, "content": [], "canary": true, "untouched": true}))
+    event_of(kind, cap, reference, &mut u, |u| (u.ok, u.write_err))
+}
+
+fn event_of<U: Use>(kind: &str, cap: usize, reference: &[u8], u: &mut U, res: impl Fn(&U) -> (bool, bool)) -> Option<Value> {
+    let u = EvU(u, res);
+    return u.go(kind, cap, reference);
+}
+struct EvU<'a, U: Use, F: Fn(&U) -> (bool, bool)>(&'a mut U, F);
+impl<'a, U: Use, F: Fn(&U) -> (bool, bool)> EvU<'a, U, F> {
+    fn go(self, kind: &str, cap: usize, reference: &[u8]) -> Option<Value> {
+        let EvU(u, res) = self;
+        let r = std::panic::catch_unwind(std::panic::AssertUnwindSafe(|| with_sink(kind, cap, u)));
+        let (ok, write_err) = res(u);
+        match r {
+            Ok(Some(a)) => Some(json!({"kind": kind, "cap": cap, "ref": bytes(reference), "ok": ok, "write_err": write_err, "panic": false,
+                                       "position": a.position, "content": bytes(&a.content), "canary": a.canary, "untouched": a.untouched})),
+            Ok(None) => None,
+            Err(_) => Some(json!({"kind": kind, "cap": cap, "ref": bytes(reference), "ok": false, "write_err": false, "panic": true,
+                                  "position": 0, "content": [], "canary": true, "untouched": true}))
+        }
     }
 }
